@@ -26,6 +26,8 @@
 (*   bound   channels whose ChannelBind got a success response (ghost)      *)
 (*   rt, ct  refresh timer (seconds, 0 = stopped), channel timer running    *)
 (*   relp    relayed port stored (0 none; the server grants 49000 + tx)     *)
+(*   life    m_lifetime: the lifetime last granted (600 at first); it is    *)
+(*           what the next Allocate request asks for                        *)
 (* Server (scripted)                                                        *)
 (*   sn      the nonce the server accepts now; salloc: the allocation       *)
 (*           exists; sbound: channels bound at the server                   *)
@@ -49,12 +51,12 @@ CONSTANTS Peers,      \* peer transport addresses, e.g. {1, 2}
           Reconnect,  \* connectToHost() again after the allocation ended
           MaxHist
 
-VARIABLES pw, st, nonce, tx, chans, bound, nch, rt, ct, relp,
+VARIABLES pw, st, nonce, tx, chans, bound, nch, rt, ct, relp, life,
           sn, salloc, sbound, authed,
           out, sig, dg, ret,
           hist
 
-cvars == <<st, nonce, tx, chans, bound, nch, rt, ct, relp>>
+cvars == <<st, nonce, tx, chans, bound, nch, rt, ct, relp, life>>
 svars == <<sn, salloc, sbound>>
 mvars == <<pw, cvars, svars, authed>>
 ovars == <<out, sig, dg, ret>>
@@ -81,7 +83,7 @@ OCd(c, p)      == [k |-> "cd", t |-> 0, re |-> FALSE, m |-> "-", cn |-> 0, lt |-
 Init ==
     /\ pw \in PwOk
     /\ st = "unconnected" /\ nonce = 0 /\ tx = <<>> /\ chans = {} /\ bound = {} /\ nch = 0
-    /\ rt = 0 /\ ct = FALSE /\ relp = 0
+    /\ rt = 0 /\ ct = FALSE /\ relp = 0 /\ life = 600
     /\ sn = 1 /\ salloc = FALSE /\ sbound = {} /\ authed = FALSE
     /\ out = <<>> /\ sig = <<>> /\ dg = <<>> /\ ret = "-"
     /\ hist = <<>>
@@ -97,17 +99,17 @@ GoUnconnected ==
     /\ tx' = CloseAll(tx) /\ chans' = {} /\ bound' = {} /\ ct' = FALSE /\ rt' = 0 /\ nonce' = 0
     /\ authed' = FALSE
     /\ out' = <<>> /\ dg' = <<>> /\ ret' = "-"
-    /\ UNCHANGED <<nch, relp>>
+    /\ UNCHANGED <<nch, relp, life>>
 
 (* --- local API ---------------------------------------------------------------------------------------- *)
 \* connectToHost(): the first Allocate request carries no credentials (RFC 5389 10.2.1.1)
 Connect ==
     /\ st = "unconnected" /\ (Len(tx) = 0 \/ Reconnect) /\ Len(tx) < MaxTx
-    /\ LET q == Req("allocate", 0, 600, -1, 0) IN
+    /\ LET q == Req("allocate", 0, life, -1, 0) IN
         /\ tx' = Append(tx, q) /\ out' = <<OReq(Len(tx) + 1, q, FALSE)>>
     /\ st' = "connecting" /\ sig' = <<>> /\ dg' = <<>> /\ ret' = "-"
     /\ Log([a |-> "Connect"])
-    /\ UNCHANGED <<pw, nonce, chans, bound, nch, rt, ct, relp, svars, authed>>
+    /\ UNCHANGED <<pw, nonce, chans, bound, nch, rt, ct, relp, life, svars, authed>>
 
 \* disconnectFromHost(): a connected allocation is released with Refresh LIFETIME = 0 (RFC 5766 7)
 Disconnect ==
@@ -123,7 +125,7 @@ Disconnect ==
     /\ chans' = {} /\ bound' = {} /\ ct' = FALSE /\ rt' = 0
     /\ dg' = <<>> /\ ret' = "-"
     /\ Log([a |-> "Disconnect"])
-    /\ UNCHANGED <<pw, nch, relp, svars>>
+    /\ UNCHANGED <<pw, nch, relp, life, svars>>
 
 \* writeDatagram(data, peer): binds a channel to the peer on first use and sends ChannelData
 \* code: the ChannelData is sent at once, before the ChannelBind request (which leaves from a 0 ms timer)
@@ -143,7 +145,7 @@ Write(p) ==
             /\ ret' = "ok"
     /\ sig' = <<>> /\ dg' = <<>>
     /\ Log([a |-> "Write", p |-> p])
-    /\ UNCHANGED <<pw, st, nonce, bound, rt, relp, svars, authed>>
+    /\ UNCHANGED <<pw, st, nonce, bound, rt, relp, life, svars, authed>>
 
 (* --- timers ------------------------------------------------------------------------------------------- *)
 \* m_timer (single shot, lifetime - 60 s): refresh()
@@ -154,7 +156,7 @@ RefreshTimer ==
     /\ rt' = 0
     /\ sig' = <<>> /\ dg' = <<>> /\ ret' = "-"
     /\ Log([a |-> "RefreshTimer"])
-    /\ UNCHANGED <<pw, st, nonce, chans, bound, nch, ct, relp, svars, authed>>
+    /\ UNCHANGED <<pw, st, nonce, chans, bound, nch, ct, relp, life, svars, authed>>
 
 \* m_channelTimer (500 s, periodic): refreshChannels() re-binds every channel
 ChannelTimer ==
@@ -164,7 +166,7 @@ ChannelTimer ==
         /\ out' = [i \in 1..Len(qs) |-> OReq(Len(tx) + i, qs[i], FALSE)]
     /\ sig' = <<>> /\ dg' = <<>> /\ ret' = "-"
     /\ Log([a |-> "ChannelTimer"])
-    /\ UNCHANGED <<pw, st, nonce, chans, bound, nch, rt, ct, relp, svars, authed>>
+    /\ UNCHANGED <<pw, st, nonce, chans, bound, nch, rt, ct, relp, life, svars, authed>>
 
 \* QXmppStunTransaction::retry(): the same request again (RFC 5389 7.2.1)
 Retransmit(t) ==
@@ -173,7 +175,7 @@ Retransmit(t) ==
     /\ out' = <<OReq(t, tx[t], TRUE)>>
     /\ sig' = <<>> /\ dg' = <<>> /\ ret' = "-"
     /\ Log([a |-> "Retransmit", t |-> t])
-    /\ UNCHANGED <<pw, st, nonce, chans, bound, nch, rt, ct, relp, svars, authed>>
+    /\ UNCHANGED <<pw, st, nonce, chans, bound, nch, rt, ct, relp, life, svars, authed>>
 
 (* --- a transaction fails: error response that is no challenge, or no response at all ----------------- *)
 Fail(t) ==
@@ -184,7 +186,7 @@ Fail(t) ==
          /\ chans' = {x \in chans : x.c # tx[t].ch} /\ bound' = bound \ {tx[t].ch}
          /\ ct' = (ct /\ \E x \in chans : x.c # tx[t].ch)
          /\ out' = <<>> /\ sig' = <<>> /\ dg' = <<>> /\ ret' = "-"
-         /\ UNCHANGED <<st, nonce, nch, rt, relp, authed>>
+         /\ UNCHANGED <<st, nonce, nch, rt, relp, life, authed>>
 
 \* the 7th transmission stayed unanswered
 Timeout(t) ==
@@ -273,26 +275,26 @@ ClientReply(t, r) ==
          /\ LET q2 == Req(q.m, r.nonce, q.lt, q.ch, q.p) IN
              /\ tx' = Append(Close(tx, t), q2) /\ out' = <<OReq(Len(tx) + 1, q2, FALSE)>>
          /\ sig' = <<>> /\ dg' = <<>> /\ ret' = "-"
-         /\ UNCHANGED <<st, chans, bound, nch, rt, ct, relp, authed>>
+         /\ UNCHANGED <<st, chans, bound, nch, rt, ct, relp, life, authed>>
     ELSE IF r.cls = "err" THEN Fail(t)
     ELSE CASE q.m = "allocate" ->
                 IF r.rel = "none" THEN GoUnconnected      \* no usable XOR-RELAYED-ADDRESS
                 ELSE /\ st' = "connected" /\ sig' = <<"connected">>
-                     /\ relp' = 49000 + t /\ rt' = r.lt - 60
+                     /\ relp' = 49000 + t /\ rt' = r.lt - 60 /\ life' = r.lt
                      /\ tx' = Close(tx, t)
                      /\ authed' = (q.cn = sn /\ pw /\ r.mi = "valid")
                      /\ out' = <<>> /\ dg' = <<>> /\ ret' = "-"
                      /\ UNCHANGED <<nonce, chans, bound, nch, ct>>
            [] q.m = "refresh" ->
                 IF st = "closing" THEN GoUnconnected
-                ELSE /\ rt' = r.lt - 60 /\ tx' = Close(tx, t)
+                ELSE /\ rt' = r.lt - 60 /\ life' = r.lt /\ tx' = Close(tx, t)
                      /\ Quiet
                      /\ UNCHANGED <<st, nonce, chans, bound, nch, ct, relp, authed>>
            [] OTHER ->
                 /\ tx' = Close(tx, t)
                 /\ bound' = IF q.ch \in ChIds THEN bound \cup {q.ch} ELSE bound
                 /\ Quiet
-                /\ UNCHANGED <<st, nonce, chans, nch, rt, ct, relp, authed>>
+                /\ UNCHANGED <<st, nonce, chans, nch, rt, ct, relp, life, authed>>
 
 \* the server handles request t according to script sh and its response r reaches the client
 Reply(t, sh, r) ==
@@ -349,7 +351,7 @@ TypeOK ==
     /\ \A x \in chans : x.c \in 0..(nch - 1) /\ x.p \in Peers
     /\ \A x, y \in chans : (x.c = y.c \/ x.p = y.p) => x = y
     /\ bound \subseteq ChIds
-    /\ rt >= 0 /\ ct \in BOOLEAN /\ sn \in 1..MaxNonce /\ salloc \in BOOLEAN
+    /\ rt >= 0 /\ ct \in BOOLEAN /\ sn \in 1..MaxNonce /\ salloc \in BOOLEAN /\ life \in Lifetimes \cup {600}
 
 \* the allocation is reported only after a success response to an Allocate request that carried valid
 \* credentials for the server's realm and current nonce
@@ -426,7 +428,7 @@ Lifecycle ==
 Reinit(p) ==
     /\ pw' = p
     /\ st' = "unconnected" /\ nonce' = 0 /\ tx' = <<>> /\ chans' = {} /\ bound' = {} /\ nch' = 0
-    /\ rt' = 0 /\ ct' = FALSE /\ relp' = 0
+    /\ rt' = 0 /\ ct' = FALSE /\ relp' = 0 /\ life' = 600
     /\ sn' = 1 /\ salloc' = FALSE /\ sbound' = {} /\ authed' = FALSE
     /\ out' = <<>> /\ sig' = <<>> /\ dg' = <<>> /\ ret' = "-"
     /\ hist' = <<>>
